@@ -378,6 +378,46 @@ def rule_details(ctx: Ctx) -> None:
     ctx.tri("8-details", us, us.node, "update_renames(" in norm(us.node) and "_prepend_name_with_scope(" in norm(us.node), False, "update_scope is a rename of exactly the selected names", "", "update_scope not recognised", key="scope-is-rename")
 
 
+def rule_scope_inputs_are_root_args(ctx: Ctx) -> None:
+    """Pipeline.update_scope(inputs={...}) scopes ROOT arguments only: a name in the set that some function produces is an edge
+    of the graph - renaming it on the consumer's side alone cuts the edge (the consumer silently falls back to its default)."""
+    from ..flow import guard_facts
+
+    fn = ctx.prog.func("pipefunc._pipeline._base.Pipeline.update_scope")
+    cfg = ctx.cfg(fn)
+    d = Defs(fn)
+    calls = [c for c in ast.walk(fn.node) if isinstance(c, ast.Call) and isinstance(c.func, ast.Attribute) and c.func.attr == "update_scope" and norm(c.func.value) != "self"]
+    n = 0
+    for c in calls:
+        arg = next((k.value for k in c.keywords if k.arg == "inputs"), c.args[1] if len(c.args) > 1 else None)
+        if arg is None:
+            continue
+        n += 1
+        r = d.resolve(arg)
+
+        def expansions(name: str) -> list[str]:
+            """Texts of the definitions of `name` that apply when the caller passed an explicit set (not the '*' shorthand)."""
+            out = []
+            for nd in cfg.nodes():
+                st = cfg.stmt[nd]
+                if isinstance(st, ast.Assign) and any(isinstance(t, ast.Name) and t.id == name for t in st.targets):
+                    if any(pol and re.search(r"==\s*'\*'", t_) for t_, pol in guard_facts(cfg, Defs(ast.Module(body=[], type_ignores=[])), nd)):
+                        continue  # only on the `inputs == "*"` path
+                    out.append(norm(d.resolve(st.value)))
+            return out
+
+        texts = [norm(r)]
+        for nm in {x.id for x in ast.walk(r) if isinstance(x, ast.Name)}:
+            texts += expansions(nm)
+        from_caller = any(isinstance(x, ast.Name) and x.id == "inputs" for x in ast.walk(r))
+        restricted = any("root_args" in t for t in texts)
+        ctx.tri("1-name-space", fn, c, restricted, from_caller and not restricted, "the names scoped as inputs are intersected with the root arguments",
+                f"`{norm(arg)[:40]}` = `{norm(r)[:80]}` scopes every name the caller lists in `inputs`, also one that another function produces: the consumer's parameter is renamed, the producer's output is not - "
+                "the edge is cut and the consumer silently uses its default (or a root argument appears that nobody asked for)", "the names handed on as inputs were not recognised", key="scope-inputs-root-args")
+    if not n:
+        ctx.add("1-name-space", fn, fn.node, None, "UNDECIDED: the per-function update_scope call was not found", key="scope-inputs-root-args")
+
+
 def rule_name_space(ctx: Ctx) -> None:
     """`_defaults` and `_bound` are keyed by the RENAMED parameter names (update_renames re-keys them and `_validate_update`
     checks them against `self.parameters`); the signature / dataclass fields / pydantic fields give ORIGINAL names.  Where a
@@ -492,7 +532,7 @@ def fs_owner(P):
 
 
 def check(ctx: Ctx) -> None:
-    for rule in (rule_name_space, rule_bound_not_mapped, rule_copy_carries, rule_no_inplace, rule_result_keys, rule_sort_keys, rule_pickle_state, rule_foreign_writes, rule_fresh_objects, rule_details):
+    for rule in (rule_name_space, rule_scope_inputs_are_root_args, rule_bound_not_mapped, rule_copy_carries, rule_no_inplace, rule_result_keys, rule_sort_keys, rule_pickle_state, rule_foreign_writes, rule_fresh_objects, rule_details):
         ctx.run(rule)
 
 
